@@ -393,7 +393,7 @@ class Schema(dict, metaclass=LogicalMeta):
                 )
             super().__delitem__(field.name)
 
-        if field.name in self.__dict__:
+        if field.attname in self.__dict__:
             self.__dict__.pop(field.attname)
 
     def __delitem__(self, key: str):
